@@ -215,7 +215,10 @@ class StructView(object):
         return start, size
 
     def prev_end(self, f):
-        """Value of $next at field f: end of the previous physical field (U if unknown)."""
+        """Value of $next at field f: end of the previous physical field (U if unknown).
+        Only evaluated for fields whose start actually mentions $next."""
+        if not _uses_next(f.start):
+            return U
         prev = None
         for g in self.sdef.fields:
             if g is f:
@@ -346,6 +349,20 @@ class StructView(object):
             if r is U or r is not True:
                 return False
         return True
+
+
+def _uses_next(e):
+    if e is None:
+        return False
+    if e[0] == "next":
+        return True
+    if e[0] in ("op",):
+        return _uses_next(e[2]) or _uses_next(e[3])
+    if e[0] in ("neg",):
+        return _uses_next(e[1])
+    if e[0] in ("max", "?:"):
+        return any(_uses_next(a) for a in e[1:])
+    return False
 
 
 class ParamView(object):
